@@ -219,8 +219,9 @@ package witness
 //@   hint encPre_s(G_row(), G_off(), G_k())
 //@   hint encPre_0(G_row(), G_off())
 //@   hint#1 b64_rt(str(G_row()[G_off() + $i]))
+//@   hint#1 strip_id(b64enc(str(G_row()[G_off() + $i])))
 //@   invariant#1 0 <= $i && $i <= len(lines) && len(r) == len(lines) && r != nil
-//@   invariant#1 forall j int :: 0 <= j && j < $i ==> str(r[j]) == b64dec(lines[j])
+//@   invariant#1 forall j int :: 0 <= j && j < $i ==> str(r[j]) == b64dec(stripCRLF(lines[j]))
 //@   invariant#1 written ==> len(lines) == G_k() && (forall j int :: 0 <= j && j < G_k() ==> lines[j] == b64enc(str(G_row()[G_off() + j])))
 //@   invariant#1 written ==> (forall j int :: 0 <= j && j < $i ==> str(r[j]) == str(G_row()[G_off() + j]))
 //@   decreases#1 len(lines) - $i
